@@ -7,25 +7,86 @@
 //! vertex length: the station at an interior vertex (2D) must carry the normalised sum of the adjacent edge directions
 //! and equal the by-vertex / iterated station.  TINY edges: curves of total length ~1e-3 with ~1300 edges shorter than
 //! 1e-6 (tolerance 1e-9): directions parallel to the edge, points reproduced within 1e-9 * extent.
+//!
+//! WAVE 5 (parameter-space audit, notes/w5_audit_C01.md).  Every curve, 2D and 3D alike, is additionally probed one
+//! ulp (f64::from_bits +-1) either side of every stored vertex length, at -0.0, L + 1 ulp, -(smallest subnormal);
+//! by fraction (0, -0.0, 1, k/8, 1/3, 2/3, l_i / L, and outside: 1 + eps, -eps, -1, 2) with the FULL
+//! station compared (index, fraction, length-along, point, direction), by at_front / at_back, by the vertex navigation
+//! of a station (at_index; 2D also at_next_index / previous / next), through a Clone and through a curve rebuilt from
+//! the stored vertices; the stored vertices themselves are compared with the input (in-order subsequence; unchanged when
+//! the input survives de-duplication).  New enumerated families: far from the origin (offsets 1e3 .. 1e8, 2^30; exact
+//! integer shapes and 0.1-scaled ones), tiny extents (1e-6, 1e-9, 2^-30; tol 0 and 1e-3 * scale), edge-length ratios
+//! 1e6 .. 1e9 (a 1e6 edge followed by 1e-3 edges), 2048 / 4096 / 4097 / 5000 edges (uniform and not, 2D / 3D, closed
+//! loop with 4400 edges), tolerance relations (tol 0 with an exactly closed / force-closed input, tol larger than some
+//! edges so that de-duplication eats vertices, closed WITHIN tolerance with a non-zero gap, a gap just above tol
+//! force-closed by a short closing edge), every 5-vertex sequence over a 3x2 grid (2D) and every 4-vertex sequence over
+//! {0,1}^3 (3D), short asymmetric chains with 2..=8 vertices.  All length comparisons are relative to min(1 + |l|, L)
+//! and all point comparisons to the edge scale plus 8 ulp of the coordinate magnitude, so that they stay meaningful on
+//! tiny curves and far from the origin.
 use super::{close, Report};
-use crate::geom2::{Curve2, Point2};
-use crate::geom3::{Curve3, Point3};
+use crate::geom2::{Curve2, CurveStation2, Point2};
+use crate::geom3::{Curve3, CurveStation3, Point3};
 
 fn lerp2(a: &Point2, b: &Point2, f: f64) -> Point2 { Point2::new(a.x + (b.x - a.x) * f, a.y + (b.y - a.y) * f) }
 fn lerp3(a: &Point3, b: &Point3, f: f64) -> Point3 { Point3::new(a.x + (b.x - a.x) * f, a.y + (b.y - a.y) * f, a.z + (b.z - a.z) * f) }
 
 fn unit2(a: &Point2, b: &Point2) -> (f64, f64) { let d = ((b.x - a.x).powi(2) + (b.y - a.y).powi(2)).sqrt(); ((b.x - a.x) / d, (b.y - a.y) / d) }
+fn unit3(a: &Point3, b: &Point3) -> (f64, f64, f64) { let d = d3(a, b); ((b.x - a.x) / d, (b.y - a.y) / d, (b.z - a.z) / d) }
+fn d2(a: &Point2, b: &Point2) -> f64 { ((b.x - a.x).powi(2) + (b.y - a.y).powi(2)).sqrt() }
+fn d3(a: &Point3, b: &Point3) -> f64 { ((b.x - a.x).powi(2) + (b.y - a.y).powi(2) + (b.z - a.z).powi(2)).sqrt() }
+
+/// the next representable number above / below a finite x >= 0 (below 0.0: the negative smallest subnormal)
+fn up(x: f64) -> f64 { if x == 0.0 { f64::from_bits(1) } else { f64::from_bits(x.to_bits() + 1) } }
+fn down(x: f64) -> f64 { if x == 0.0 { -f64::from_bits(1) } else { f64::from_bits(x.to_bits() - 1) } }
+
+/// index k with ls[k] == l in the strictly increasing list ls (own bisection: the oracle does not use the std search)
+fn find(ls: &[f64], l: f64) -> Option<usize> {
+    let (mut lo, mut hi) = (0usize, ls.len());
+    while lo < hi { let mid = (lo + hi) / 2; if ls[mid] < l { lo = mid + 1 } else { hi = mid } }
+    if lo < ls.len() && ls[lo] == l { Some(lo) } else { None }
+}
+/// edge i with ls[i] < l < ls[i + 1] for an l in (0, L) that is not a stored vertex length
+fn edge_of(ls: &[f64], l: f64) -> usize {
+    let (mut lo, mut hi) = (0usize, ls.len());
+    while lo < hi { let mid = (lo + hi) / 2; if ls[mid] < l { lo = mid + 1 } else { hi = mid } }
+    lo.max(1) - 1
+}
+
+/// comparison scales of one curve: coordinate magnitude, longest edge, total length
+struct Scale { ext: f64, emax: f64, total: f64 }
+impl Scale {
+    /// coordinates: 1e-9 of the edge scale (of the extent when that is smaller) plus 8 ulp of the coordinate magnitude
+    fn pt(&self, a: f64, b: f64) -> bool { (a - b).abs() <= 1e-9 * self.ext.min(1.0 + self.emax) + 8.0 * f64::EPSILON * self.ext }
+    /// arc lengths: 1e-9 relative to 1 + |l|, and to the total length when that is smaller
+    fn len(&self, a: f64, b: f64) -> bool { (a - b).abs() <= 1e-9 * (1.0 + a.abs().max(b.abs())).min(self.total) }
+}
+fn same_f(a: f64, b: f64) -> bool { (a.is_nan() && b.is_nan()) || close(a, b) }
+fn same2(a: &CurveStation2, b: &CurveStation2) -> bool {
+    a.index() == b.index() && a.fraction() == b.fraction() && a.point() == b.point() && same_f(a.direction().x, b.direction().x) && same_f(a.direction().y, b.direction().y)
+}
+fn same3(a: &CurveStation3, b: &CurveStation3) -> bool {
+    a.index() == b.index() && a.fraction() == b.fraction() && a.point() == b.point()
+        && same_f(a.direction().x, b.direction().x) && same_f(a.direction().y, b.direction().y) && same_f(a.direction().z, b.direction().z)
+}
+/// the fractions every curve is asked for (inside [0, 1]) and the ones that must give no station
+const FRACTIONS: [f64; 12] = [0.0, -0.0, 1.0, 0.125, 0.25, 0.375, 0.5, 0.625, 0.75, 0.875, 1.0 / 3.0, 2.0 / 3.0];
+const FRACTIONS_OUT: [f64; 4] = [1.0 + f64::EPSILON, -f64::EPSILON, -1.0, 2.0];
+/// vertex indices used for the per-vertex extras: all of them on short curves, ~48 spread ones (and the ends) on long ones
+fn sample(n: usize) -> Vec<usize> {
+    if n <= 64 { return (0..n).collect(); }
+    let mut s: Vec<usize> = (0..48).map(|k| k * (n - 1) / 47).collect();
+    s.extend([1, 2, n - 3, n - 2]);
+    s.sort(); s.dedup(); s
+}
+
 /// is l a stored vertex length whose adjacent edge directions cancel?
 fn doubles_back(v: &[Point2], closed: bool, l: f64, ls: &[f64]) -> bool {
     let n = v.len();
-    for k in 0..n {
-        if ls[k] != l { continue; }
-        let (e0, e1) = if closed && (k == 0 || k == n - 1) { (0, n - 2) } else if k == 0 || k == n - 1 { return false } else { (k - 1, k) };
-        let a = unit2(&v[e0], &v[e0 + 1]);
-        let b = unit2(&v[e1], &v[e1 + 1]);
-        if (a.0 + b.0).abs() < 1e-12 && (a.1 + b.1).abs() < 1e-12 { return true; }
-    }
-    false
+    let k = match find(ls, l) { Some(k) => k, None => return false };
+    let (e0, e1) = if closed && (k == 0 || k == n - 1) { (0, n - 2) } else if k == 0 || k == n - 1 { return false } else { (k - 1, k) };
+    let a = unit2(&v[e0], &v[e0 + 1]);
+    let b = unit2(&v[e1], &v[e1 + 1]);
+    (a.0 + b.0).abs() < 1e-12 && (a.1 + b.1).abs() < 1e-12
 }
 
 /// vertex list for a failure message: in full up to 40 points; longer lists (the generated LONG families, whose edge
@@ -44,19 +105,24 @@ fn check_curve2_tol(r: &mut Report, pts: &[Point2], force_closed: bool, tol: f64
     let v = c.points().to_vec();
     let n = v.len();
     let ls = c.lengths().clone();
-    // point comparisons: relative to the extent of the curve when that is below one unit
+    if n < 2 || ls.len() != n { r.check(false, "lengths start at 0 and match the vertex count", desc); return; }
+    // point comparisons: relative to the extent of the curve when that is below one unit, to the edge scale otherwise
     let ext = v.iter().fold(0.0f64, |m, q| m.max(q.x.abs()).max(q.y.abs()));
-    let cp = |a: f64, b: f64| if ext < 1.0 { (a - b).abs() <= 1e-9 * ext } else { close(a, b) };
+    let emax = (0..n - 1).fold(0.0f64, |m, i| m.max(d2(&v[i], &v[i + 1])));
+    let sc = Scale { ext, emax, total: c.length() };
+    let cp = |a: f64, b: f64| sc.pt(a, b);
     // cumulative lengths: start at 0, increase by exactly the edge lengths, end at the sum of edge lengths
     r.check(ls.len() == n && ls[0] == 0.0, "lengths start at 0 and match the vertex count", desc);
     let mut sum = 0.0;
     for i in 0..n - 1 {
-        let d = ((v[i + 1].x - v[i].x).powi(2) + (v[i + 1].y - v[i].y).powi(2)).sqrt();
+        let d = d2(&v[i], &v[i + 1]);
         sum += d;
-        r.check(close(ls[i + 1] - ls[i], d) && ls[i + 1] > ls[i], "length increments equal edge lengths", desc);
+        r.check(sc.len(ls[i + 1] - ls[i], d) && ls[i + 1] > ls[i], "length increments equal edge lengths", desc);
     }
-    r.check(close(c.length(), sum), "total length is the sum of edge lengths", desc);
-    let dfl = ((v[0].x - v[n - 1].x).powi(2) + (v[0].y - v[n - 1].y).powi(2)).sqrt();
+    r.check(sc.len(c.length(), sum), "total length is the sum of edge lengths", desc);
+    // a curve whose total length is not a positive finite number has no stations to ask for (NaN lengths are out of scope)
+    if !(c.length() > 0.0 && c.length().is_finite() && ls.iter().all(|x| x.is_finite())) { r.check(false, "total length is the sum of edge lengths", desc); return; }
+    let dfl = d2(&v[n - 1], &v[0]);
     r.check(c.is_closed() == (dfl <= tol), "closed flag <=> first and last vertex within tol", desc);
     if force_closed { r.check(c.is_closed(), "force-closed curve is closed", desc); }
     // stations
@@ -65,42 +131,44 @@ fn check_curve2_tol(r: &mut Report, pts: &[Point2], force_closed: bool, tol: f64
     for i in 0..n - 1 { for f in [0.0, 0.25, 0.5, 1.0] { probes.push(ls[i] + (ls[i + 1] - ls[i]) * f); } }
     // just off a stored vertex length (well inside the curve tolerance, and one ulp either side): still an edge station
     for i in 0..n { for d in [tol * 0.25, -tol * 0.25, ls[i] * f64::EPSILON, -ls[i] * f64::EPSILON] { let l = ls[i] + d; if l > 0.0 && l < total { probes.push(l); } } }
+    // exactly one ulp either side of every stored vertex length
+    for i in 0..n { for l in [up(ls[i]), down(ls[i])] { if l > 0.0 && l < total { probes.push(l); } } }
     for &l in probes.iter() {
-        let d2 = || format!("{} at_length({:?})", desc(), l);
+        let d2_ = || format!("{} at_length({:?})", desc(), l);
         match c.at_length(l) {
-            None => r.check(false, "a length inside [0, L] yields a station", d2),
+            None => r.check(false, "a length inside [0, L] yields a station", d2_),
             Some(s) => {
-                r.check(s.index() + 1 < n, "edge index in range", d2);
-                r.check(s.fraction() >= 0.0 && s.fraction() <= 1.0, "fraction in [0,1]", d2);
-                r.check(close(s.length_along(), l), "length_along == l", d2);
-                if !ls.iter().any(|x| *x == l) && s.index() + 1 < n {
+                r.check(s.index() + 1 < n, "edge index in range", d2_);
+                r.check(s.fraction() >= 0.0 && s.fraction() <= 1.0, "fraction in [0,1]", d2_);
+                r.check(sc.len(s.length_along(), l), "length_along == l", d2_);
+                if find(&ls, l).is_none() && s.index() + 1 < n {
                     // not a stored vertex length: the station lies strictly inside the edge that contains l
-                    r.check(ls[s.index()] < l && l < ls[s.index() + 1], "a length that is not a stored vertex length lies strictly inside its edge", d2);
-                    r.check((s.length_along() - l).abs() <= 4.0 * f64::EPSILON * (1.0 + l.abs()), "length_along == l to rounding (no snapping to a nearby vertex)", d2);
+                    r.check(ls[s.index()] < l && l < ls[s.index() + 1], "a length that is not a stored vertex length lies strictly inside its edge", d2_);
+                    r.check((s.length_along() - l).abs() <= 4.0 * f64::EPSILON * (total.min(1.0) + l.abs()), "length_along == l to rounding (no snapping to a nearby vertex)", d2_);
                     let e = unit2(&v[s.index()], &v[s.index() + 1]);
-                    r.check(close(s.direction().x, e.0) && close(s.direction().y, e.1), "direction parallel to the edge the station lies on", d2);
+                    r.check(close(s.direction().x, e.0) && close(s.direction().y, e.1), "direction parallel to the edge the station lies on", d2_);
                 }
                 if s.index() + 1 < n {
                     let p = lerp2(&v[s.index()], &v[s.index() + 1], s.fraction());
-                    r.check(cp(p.x, s.point().x) && cp(p.y, s.point().y), "index+fraction reproduce the point", d2);
+                    r.check(cp(p.x, s.point().x) && cp(p.y, s.point().y), "index+fraction reproduce the point", d2_);
                     // lies on the curve: on the edge that contains l, at the arc length l - l[index] from its start
                     let e = unit2(&v[s.index()], &v[s.index() + 1]);
                     let q = Point2::new(v[s.index()].x + e.0 * (l - ls[s.index()]), v[s.index()].y + e.1 * (l - ls[s.index()]));
-                    r.check(cp(q.x, s.point().x) && cp(q.y, s.point().y), "the station lies on the curve at arc length l (start of its edge + unit edge direction * (l - l[index]))", d2);
+                    r.check(cp(q.x, s.point().x) && cp(q.y, s.point().y), "the station lies on the curve at arc length l (start of its edge + unit edge direction * (l - l[index]))", d2_);
                 }
                 // the same place by fraction
                 if total > 0.0 {
                     if let Some(s2) = c.at_fraction(l / total) {
-                        r.check(cp(s2.point().x, s.point().x) && cp(s2.point().y, s.point().y), "at_fraction(l/L) gives the same point", d2);
-                    } else if l / total * total <= total { r.check(false, "at_fraction(l/L) yields a station", d2); }
+                        r.check(cp(s2.point().x, s.point().x) && cp(s2.point().y, s.point().y), "at_fraction(l/L) gives the same point", d2_);
+                    } else if l / total * total <= total { r.check(false, "at_fraction(l/L) yields a station", d2_); }
                 }
                 let dn = (s.direction().x.powi(2) + s.direction().y.powi(2)).sqrt();
                 // a vertex whose two adjacent edges are exactly anti-parallel (the curve doubles back) has no
                 // "normalised sum of the two adjacent edge directions": reported under its own name
                 if doubles_back(&v, c.is_closed(), l, &ls) {
-                    r.check(close(dn, 1.0), "unit direction at a doubled-back vertex (adjacent edges anti-parallel: the sum of the edge directions is the zero vector)", d2);
+                    r.check(close(dn, 1.0), "unit direction at a doubled-back vertex (adjacent edges anti-parallel: the sum of the edge directions is the zero vector)", d2_);
                 } else {
-                    r.check(close(dn, 1.0), "unit direction", d2);
+                    r.check(close(dn, 1.0), "unit direction", d2_);
                 }
             }
         }
@@ -109,17 +177,18 @@ fn check_curve2_tol(r: &mut Report, pts: &[Point2], force_closed: bool, tol: f64
     let stations: Vec<_> = c.iter().collect();
     r.check(stations.len() == n, "iteration yields one station per vertex", desc);
     for (k, st) in stations.iter().enumerate() {
-        let d3 = || format!("{} vertex {}", desc(), k);
-        r.check(st.point() == v[k], "iterated station k is vertex k", d3);
-        r.check(close(st.length_along(), ls[k]), "iterated station k has the stored length", d3);
+        if k >= n { break; }
+        let d3_ = || format!("{} vertex {}", desc(), k);
+        r.check(st.point() == v[k], "iterated station k is vertex k", d3_);
+        r.check(sc.len(st.length_along(), ls[k]), "iterated station k has the stored length", d3_);
         if let Some(s) = c.at_length(ls[k]) {
-            r.check(s.index() == st.index() && s.fraction() == st.fraction(), "at_length(stored length k) == station of vertex k (index, fraction)", d3);
+            r.check(s.index() == st.index() && s.fraction() == st.fraction(), "at_length(stored length k) == station of vertex k (index, fraction)", d3_);
             if !doubles_back(&v, c.is_closed(), ls[k], &ls) {
-                r.check(close(s.direction().x, st.direction().x) && close(s.direction().y, st.direction().y), "same direction by length and by vertex", d3);
+                r.check(close(s.direction().x, st.direction().x) && close(s.direction().y, st.direction().y), "same direction by length and by vertex", d3_);
             }
             let (ei, ef) = if k == n - 1 { (k - 1, 1.0) } else { (k, 0.0) };
-            r.check(s.index() == ei && s.fraction() == ef, "vertex station is (k, 0.0), last vertex (n-2, 1.0)", d3);
-            r.check(s.point() == v[k], "station at a stored vertex length is that vertex", d3);
+            r.check(s.index() == ei && s.fraction() == ef, "vertex station is (k, 0.0), last vertex (n-2, 1.0)", d3_);
+            r.check(s.point() == v[k], "station at a stored vertex length is that vertex", d3_);
             // the direction the statement prescribes, computed from the vertices alone
             if !doubles_back(&v, c.is_closed(), ls[k], &ls) {
                 let seam = c.is_closed() && (k == 0 || k == n - 1);
@@ -129,14 +198,105 @@ fn check_curve2_tol(r: &mut Report, pts: &[Point2], force_closed: bool, tol: f64
                     let m = ((a.0 + b.0).powi(2) + (a.1 + b.1).powi(2)).sqrt();
                     ((a.0 + b.0) / m, (a.1 + b.1) / m)
                 } else if k == 0 { unit2(&v[0], &v[1]) } else { unit2(&v[n - 2], &v[n - 1]) };
-                r.check(close(s.direction().x, want.0) && close(s.direction().y, want.1), "at_length(stored vertex length): direction is the normalised sum of the two adjacent edge directions at an interior vertex / closed seam, the edge direction at an open end", d3);
-                r.check(close(st.direction().x, want.0) && close(st.direction().y, want.1), "iterated vertex station: direction is the normalised sum of the two adjacent edge directions at an interior vertex / closed seam, the edge direction at an open end", d3);
+                r.check(close(s.direction().x, want.0) && close(s.direction().y, want.1), "at_length(stored vertex length): direction is the normalised sum of the two adjacent edge directions at an interior vertex / closed seam, the edge direction at an open end", d3_);
+                r.check(close(st.direction().x, want.0) && close(st.direction().y, want.1), "iterated vertex station: direction is the normalised sum of the two adjacent edge directions at an interior vertex / closed seam, the edge direction at an open end", d3_);
             }
-        } else { r.check(false, "stored vertex length yields a station", d3); }
+        } else { r.check(false, "stored vertex length yields a station", d3_); }
     }
     // outside [0, L]: no station (no clamping / extrapolation)
-    for l in [-1e-9, -f64::MIN_POSITIVE, total + 1e-9, total * (1.0 + 4.0 * f64::EPSILON) + f64::MIN_POSITIVE, -1.0, total + 1.0] {
+    for l in [-1e-9, -f64::MIN_POSITIVE, total + 1e-9, total * (1.0 + 4.0 * f64::EPSILON) + f64::MIN_POSITIVE, -1.0, total + 1.0,
+              down(0.0), up(total), total + tol * 0.5, -tol * 0.5 - f64::MIN_POSITIVE] {
+        if !(l < 0.0 || l > total) { continue; }
         r.check(c.at_length(l).is_none(), "a length outside [0, L] yields no station", || format!("{} at_length({:?})", desc(), l));
+    }
+    if stations.len() != n { return; }
+
+    // ---- wave 5 ----
+    // the two ends, asked for by vertex (at_front / at_back), by length (0, -0.0, L) and by iteration
+    let (f0, b0) = (c.at_front(), c.at_back());
+    r.check(f0.index() == 0 && f0.fraction() == 0.0 && f0.point() == v[0] && sc.len(f0.length_along(), 0.0) && same2(&f0, &stations[0]),
+        "at_front() is the station of the first vertex: (0, 0.0), length-along 0, equal to the first iterated station", desc);
+    r.check(b0.index() == n - 2 && b0.fraction() == 1.0 && b0.point() == v[n - 1] && sc.len(b0.length_along(), total) && same2(&b0, &stations[n - 1]),
+        "at_back() is the station of the last vertex: (n-2, 1.0), length-along L, equal to the last iterated station", desc);
+    for l in [0.0, -0.0] {
+        r.check(c.at_length(l).map_or(false, |s| same2(&s, &stations[0])), "at_length(0.0) and at_length(-0.0) give the station of the first vertex", || format!("{} at_length({:?})", desc(), l));
+    }
+    r.check(c.at_length(total).map_or(false, |s| same2(&s, &stations[n - 1])), "at_length(L) gives the station of the last vertex", desc);
+    // by fraction: the full station
+    let mut fr: Vec<f64> = FRACTIONS.to_vec();
+    for &k in sample(n).iter() { fr.push(ls[k] / total); }
+    for &f in fr.iter() {
+        let l = f * total;
+        let d4 = || format!("{} at_fraction({:?}) [f * L = {:?}]", desc(), f, l);
+        if !(l >= 0.0 && l <= total) { continue; }
+        match c.at_fraction(f) {
+            None => r.check(false, "a fraction inside [0, 1] yields a station", d4),
+            Some(s) => {
+                if let Some(k) = find(&ls, l) {
+                    r.check(same2(&s, &stations[k]), "at_fraction(f) with f * L a stored vertex length is the station of that vertex (index, fraction, point, direction)", d4);
+                } else {
+                    let i = edge_of(&ls, l);
+                    let e = unit2(&v[i], &v[i + 1]);
+                    let q = Point2::new(v[i].x + e.0 * (l - ls[i]), v[i].y + e.1 * (l - ls[i]));
+                    let ok = s.index() == i && s.fraction() >= 0.0 && s.fraction() <= 1.0 && sc.len(s.length_along(), l)
+                        && cp(q.x, s.point().x) && cp(q.y, s.point().y) && close(s.direction().x, e.0) && close(s.direction().y, e.1);
+                    r.check(ok, "at_fraction(f) is the station at arc length f * L (edge index, length-along, point on that edge, direction parallel to it)", d4);
+                    let p = lerp2(&v[i], &v[i + 1], s.fraction());
+                    r.check(s.index() != i || (cp(p.x, s.point().x) && cp(p.y, s.point().y)), "at_fraction(f): index+fraction reproduce the point", d4);
+                }
+            }
+        }
+    }
+    for f in FRACTIONS_OUT {
+        r.check(c.at_fraction(f).is_none(), "a fraction outside [0, 1] yields no station", || format!("{} at_fraction({:?})", desc(), f));
+    }
+    // vertex navigation from a station: by vertex index == by iterating
+    let mut nav: Vec<CurveStation2> = vec![];
+    for &k in sample(n).iter() { nav.push(stations[k]); if k + 1 < n { if let Some(s) = c.at_length(ls[k] + (ls[k + 1] - ls[k]) * 0.5) { nav.push(s); } } }
+    for s in nav.iter() {
+        let (i, f) = (s.index(), s.fraction());
+        if i + 1 >= n { continue; }
+        let d5 = || format!("{} station (index {}, fraction {:?})", desc(), i, f);
+        r.check(same2(&s.at_index(), &stations[i]), "station.at_index() is the station of vertex `index` (the one iteration yields)", d5);
+        r.check(same2(&s.at_next_index(), &stations[i + 1]), "station.at_next_index() is the station of vertex `index + 1` (the one iteration yields)", d5);
+        let want_prev = if f > 0.0 { Some(i) } else if i > 0 { Some(i - 1) } else { None };
+        let got = s.previous();
+        r.check(match (want_prev, &got) { (None, None) => true, (Some(j), Some(g)) => same2(g, &stations[j]), _ => false },
+            "station.previous() is the station of the vertex before it (vertex `index` from inside an edge, `index - 1` from a vertex, none at the first vertex)", d5);
+        if f < 1.0 {
+            r.check(s.next().map_or(false, |g| same2(&g, &stations[i + 1])), "station.next() is the station of vertex `index + 1` (from a vertex or from inside an edge)", d5);
+        }
+    }
+    // the stored vertices against the input
+    let mut j = 0usize;
+    let mut ordered = pts.len() > 0 && v[0] == pts[0];
+    for k in 0..n {
+        while j < pts.len() && pts[j] != v[k] { j += 1; }
+        if j == pts.len() { if !(k == n - 1 && force_closed && v[k] == v[0]) { ordered = false; } break; }
+        j += 1;
+    }
+    r.check(ordered, "the stored vertices are input points in input order, starting with the first (plus the closing vertex of a force-closed curve)", desc);
+    let tie = |d: f64| d != tol && (d - tol).abs() <= 1e-9 * tol;
+    let gaps: Vec<f64> = (0..pts.len() - 1).map(|i| d2(&pts[i], &pts[i + 1])).collect();
+    let gfl = d2(&pts[pts.len() - 1], &pts[0]);
+    if gaps.iter().all(|&d| d > tol && !tie(d)) && !tie(gfl) {
+        let push = force_closed && gfl > tol;
+        r.check(n == pts.len() + push as usize && v[..pts.len()] == pts[..] && (!push || v[n - 1] == pts[0]),
+            "a vertex sequence that survives de-duplication is stored unchanged (plus the closing vertex when force-closed)", desc);
+    }
+    // Clone, and a curve rebuilt from the stored vertices: same vertices, cumulative lengths, closedness, stations
+    let cl = c.clone();
+    let same_curve = |o: &Curve2| {
+        let (ov, ol) = (o.points(), o.lengths());
+        ov.len() == n && ol.len() == n && (0..n).all(|k| ov[k] == v[k] && sc.len(ol[k], ls[k])) && o.is_closed() == c.is_closed() && sc.len(o.length(), total)
+            && [0.0, total * 0.5, total].iter().all(|&l| match (o.at_length(l), c.at_length(l)) { (Some(a), Some(b)) => same2(&a, &b) && sc.len(a.length_along(), b.length_along()), _ => false })
+    };
+    r.check(same_curve(&cl), "a Clone of the curve has the same vertices, cumulative lengths, closedness and stations", desc);
+    for fc in [false, c.is_closed()] {
+        match Curve2::from_points(&c.clone_points(), tol, fc) {
+            Ok(o) => r.check(same_curve(&o), "a curve rebuilt from the stored vertices (clone_points -> from_points, same tol) has the same vertices, cumulative lengths, closedness and stations", desc),
+            Err(_) => r.check(false, "a curve rebuilt from the stored vertices (clone_points -> from_points, same tol) has the same vertices, cumulative lengths, closedness and stations", desc),
+        }
     }
 }
 
@@ -148,74 +308,157 @@ fn check_curve3_tol(r: &mut Report, pts: &[Point3], tol: f64) {
     let v = c.points().to_vec();
     let n = v.len();
     let ls = c.lengths().to_vec();
+    if n < 2 || ls.len() != n { r.check(false, "lengths start at 0 and match the vertex count", desc); return; }
     let ext = v.iter().fold(0.0f64, |m, q| m.max(q.x.abs()).max(q.y.abs()).max(q.z.abs()));
-    let cp = |a: f64, b: f64| if ext < 1.0 { (a - b).abs() <= 1e-9 * ext } else { close(a, b) };
+    let emax = (0..n - 1).fold(0.0f64, |m, i| m.max(d3(&v[i], &v[i + 1])));
+    let sc = Scale { ext, emax, total: c.length() };
+    let cp = |a: f64, b: f64| sc.pt(a, b);
     r.check(ls.len() == n && ls[0] == 0.0, "lengths start at 0 and match the vertex count", desc);
     let mut sum = 0.0;
     for i in 0..n - 1 {
-        let d = ((v[i + 1].x - v[i].x).powi(2) + (v[i + 1].y - v[i].y).powi(2) + (v[i + 1].z - v[i].z).powi(2)).sqrt();
+        let d = d3(&v[i], &v[i + 1]);
         sum += d;
-        r.check(close(ls[i + 1] - ls[i], d) && ls[i + 1] > ls[i], "length increments equal edge lengths", desc);
+        r.check(sc.len(ls[i + 1] - ls[i], d) && ls[i + 1] > ls[i], "length increments equal edge lengths", desc);
     }
-    r.check(close(c.length(), sum), "total length is the sum of edge lengths", desc);
+    r.check(sc.len(c.length(), sum), "total length is the sum of edge lengths", desc);
+    if !(c.length() > 0.0 && c.length().is_finite() && ls.iter().all(|x| x.is_finite())) { r.check(false, "total length is the sum of edge lengths", desc); return; }
     let total = c.length();
     for k in 0..n {
-        let d3 = || format!("{} vertex {}", desc(), k);
+        let d3_ = || format!("{} vertex {}", desc(), k);
         if let Some(s) = c.at_length(ls[k]) {
             let (ei, ef) = if k == n - 1 { (k - 1, 1.0) } else { (k, 0.0) };
-            r.check(s.index() == ei && s.fraction() == ef, "vertex station is (k, 0.0), last vertex (n-2, 1.0)", d3);
-            r.check(s.point() == v[k], "station at a stored vertex length is that vertex", d3);
+            r.check(s.index() == ei && s.fraction() == ef, "vertex station is (k, 0.0), last vertex (n-2, 1.0)", d3_);
+            r.check(s.point() == v[k], "station at a stored vertex length is that vertex", d3_);
             // direction = direction of edge `index` for k < n-1
             let e = if k == n - 1 { k - 1 } else { k };
             let dv = v[e + 1] - v[e];
             let dn = dv / dv.norm();
-            r.check(close(s.direction().x, dn.x) && close(s.direction().y, dn.y) && close(s.direction().z, dn.z), "vertex direction parallel to its edge", d3);
-        } else { r.check(false, "stored vertex length yields a station", d3); }
+            r.check(close(s.direction().x, dn.x) && close(s.direction().y, dn.y) && close(s.direction().z, dn.z), "vertex direction parallel to its edge", d3_);
+        } else { r.check(false, "stored vertex length yields a station", d3_); }
     }
     let mut probes3: Vec<f64> = vec![];
     for i in 0..n - 1 { for f in [0.25, 0.5] { probes3.push(ls[i] + (ls[i + 1] - ls[i]) * f); } }
-    for i in 0..n { for d in [tol * 0.25, -tol * 0.25, ls[i] * f64::EPSILON, -ls[i] * f64::EPSILON] { let l = ls[i] + d; if l > 0.0 && l < total && !ls.iter().any(|x| *x == l) { probes3.push(l); } } }
+    for i in 0..n { for d in [tol * 0.25, -tol * 0.25, ls[i] * f64::EPSILON, -ls[i] * f64::EPSILON] { let l = ls[i] + d; if l > 0.0 && l < total && find(&ls, l).is_none() { probes3.push(l); } } }
+    // exactly one ulp either side of every stored vertex length
+    for i in 0..n { for l in [up(ls[i]), down(ls[i])] { if l > 0.0 && l < total && find(&ls, l).is_none() { probes3.push(l); } } }
     for &l in probes3.iter() {
-        let d2 = || format!("{} at_length({:?})", desc(), l);
+        let d2_ = || format!("{} at_length({:?})", desc(), l);
         if let Some(s) = c.at_length(l) {
-            r.check(close(s.length_along(), l), "length_along == l", d2);
+            r.check(s.index() + 1 < n, "edge index in range", d2_);
+            r.check(s.fraction() >= 0.0 && s.fraction() <= 1.0, "fraction in [0,1]", d2_);
+            r.check(sc.len(s.length_along(), l), "length_along == l", d2_);
             if s.index() + 1 < n {
-                r.check(ls[s.index()] < l && l < ls[s.index() + 1], "a length that is not a stored vertex length lies strictly inside its edge", d2);
-                r.check((s.length_along() - l).abs() <= 4.0 * f64::EPSILON * (1.0 + l.abs()), "length_along == l to rounding (no snapping to a nearby vertex)", d2);
+                r.check(ls[s.index()] < l && l < ls[s.index() + 1], "a length that is not a stored vertex length lies strictly inside its edge", d2_);
+                r.check((s.length_along() - l).abs() <= 4.0 * f64::EPSILON * (total.min(1.0) + l.abs()), "length_along == l to rounding (no snapping to a nearby vertex)", d2_);
                 let dv = v[s.index() + 1] - v[s.index()];
                 let dn = dv / dv.norm();
-                r.check(close(s.direction().x, dn.x) && close(s.direction().y, dn.y) && close(s.direction().z, dn.z), "direction parallel to the edge the station lies on", d2);
+                r.check(close(s.direction().x, dn.x) && close(s.direction().y, dn.y) && close(s.direction().z, dn.z), "direction parallel to the edge the station lies on", d2_);
             }
             if s.index() + 1 < n {
                 let p = lerp3(&v[s.index()], &v[s.index() + 1], s.fraction());
-                r.check(cp(p.x, s.point().x) && cp(p.y, s.point().y) && cp(p.z, s.point().z), "index+fraction reproduce the point", d2);
+                r.check(cp(p.x, s.point().x) && cp(p.y, s.point().y) && cp(p.z, s.point().z), "index+fraction reproduce the point", d2_);
                 let dv = v[s.index() + 1] - v[s.index()];
                 let q = v[s.index()] + dv / dv.norm() * (l - ls[s.index()]);
-                r.check(cp(q.x, s.point().x) && cp(q.y, s.point().y) && cp(q.z, s.point().z), "the station lies on the curve at arc length l (start of its edge + unit edge direction * (l - l[index]))", d2);
+                r.check(cp(q.x, s.point().x) && cp(q.y, s.point().y) && cp(q.z, s.point().z), "the station lies on the curve at arc length l (start of its edge + unit edge direction * (l - l[index]))", d2_);
             }
-        } else { r.check(false, "a length inside [0, L] yields a station", d2); }
+            let dn = (s.direction().x.powi(2) + s.direction().y.powi(2) + s.direction().z.powi(2)).sqrt();
+            r.check(close(dn, 1.0), "unit direction", d2_);
+        } else { r.check(false, "a length inside [0, L] yields a station", d2_); }
     }
-    for l in [-1e-9, total + 1e-9, -1.0, total + 1.0] {
+    for l in [-1e-9, total + 1e-9, -1.0, total + 1.0, -f64::MIN_POSITIVE, down(0.0), up(total), total * (1.0 + 4.0 * f64::EPSILON) + f64::MIN_POSITIVE,
+              total + tol * 0.5, -tol * 0.5 - f64::MIN_POSITIVE] {
+        if !(l < 0.0 || l > total) { continue; }
         r.check(c.at_length(l).is_none(), "a length outside [0, L] yields no station", || format!("{} at_length({:?})", desc(), l));
     }
     let mut k = 0;
     for st in c.iter() {
+        if k >= n { k += 1; continue; }
         if let Some(s) = c.at_length(ls[k]) {
             r.check(s.index() == st.index() && s.fraction() == st.fraction() && s.point() == st.point()
                 && close(s.direction().x, st.direction().x) && close(s.direction().y, st.direction().y) && close(s.direction().z, st.direction().z),
                 "at_length(stored length k) == iterated station k (index, fraction, point, direction)", || format!("{} vertex {}", desc(), k));
         }
-        r.check(close(st.length_along(), ls[k]), "iterated station k has the stored length", desc);
+        r.check(sc.len(st.length_along(), ls[k]), "iterated station k has the stored length", desc);
         r.check(st.point() == v[k], "iterated station k is vertex k", desc);
         let dn = (st.direction().x.powi(2) + st.direction().y.powi(2) + st.direction().z.powi(2)).sqrt();
         r.check(close(dn, 1.0), "unit direction (3D vertex station)", desc);
         k += 1;
     }
     r.check(k == n, "iteration yields one station per vertex", desc);
+    if k != n { return; }
+
+    // ---- wave 5: the 3D counterpart of every 2D clause ----
+    let stations: Vec<CurveStation3> = c.iter().collect();
+    let (f0, b0) = (c.at_front(), c.at_back());
+    r.check(f0.index() == 0 && f0.fraction() == 0.0 && f0.point() == v[0] && sc.len(f0.length_along(), 0.0) && same3(&f0, &stations[0]),
+        "at_front() is the station of the first vertex: (0, 0.0), length-along 0, equal to the first iterated station", desc);
+    r.check(b0.index() == n - 2 && b0.fraction() == 1.0 && b0.point() == v[n - 1] && sc.len(b0.length_along(), total) && same3(&b0, &stations[n - 1]),
+        "at_back() is the station of the last vertex: (n-2, 1.0), length-along L, equal to the last iterated station", desc);
+    for l in [0.0, -0.0] {
+        r.check(c.at_length(l).map_or(false, |s| same3(&s, &stations[0])), "at_length(0.0) and at_length(-0.0) give the station of the first vertex", || format!("{} at_length({:?})", desc(), l));
+    }
+    r.check(c.at_length(total).map_or(false, |s| same3(&s, &stations[n - 1])), "at_length(L) gives the station of the last vertex", desc);
+    let mut fr: Vec<f64> = FRACTIONS.to_vec();
+    for &k in sample(n).iter() { fr.push(ls[k] / total); }
+    for &f in fr.iter() {
+        let l = f * total;
+        let d4 = || format!("{} at_fraction({:?}) [f * L = {:?}]", desc(), f, l);
+        if !(l >= 0.0 && l <= total) { continue; }
+        match c.at_fraction(f) {
+            None => r.check(false, "a fraction inside [0, 1] yields a station", d4),
+            Some(s) => {
+                if let Some(k) = find(&ls, l) {
+                    r.check(same3(&s, &stations[k]), "at_fraction(f) with f * L a stored vertex length is the station of that vertex (index, fraction, point, direction)", d4);
+                } else {
+                    let i = edge_of(&ls, l);
+                    let e = unit3(&v[i], &v[i + 1]);
+                    let q = Point3::new(v[i].x + e.0 * (l - ls[i]), v[i].y + e.1 * (l - ls[i]), v[i].z + e.2 * (l - ls[i]));
+                    let ok = s.index() == i && s.fraction() >= 0.0 && s.fraction() <= 1.0 && sc.len(s.length_along(), l)
+                        && cp(q.x, s.point().x) && cp(q.y, s.point().y) && cp(q.z, s.point().z)
+                        && close(s.direction().x, e.0) && close(s.direction().y, e.1) && close(s.direction().z, e.2);
+                    r.check(ok, "at_fraction(f) is the station at arc length f * L (edge index, length-along, point on that edge, direction parallel to it)", d4);
+                    let p = lerp3(&v[i], &v[i + 1], s.fraction());
+                    r.check(s.index() != i || (cp(p.x, s.point().x) && cp(p.y, s.point().y) && cp(p.z, s.point().z)), "at_fraction(f): index+fraction reproduce the point", d4);
+                }
+            }
+        }
+    }
+    for f in FRACTIONS_OUT {
+        r.check(c.at_fraction(f).is_none(), "a fraction outside [0, 1] yields no station", || format!("{} at_fraction({:?})", desc(), f));
+    }
+    let mut nav: Vec<CurveStation3> = vec![];
+    for &k in sample(n).iter() { nav.push(stations[k]); if k + 1 < n { if let Some(s) = c.at_length(ls[k] + (ls[k + 1] - ls[k]) * 0.5) { nav.push(s); } } }
+    for s in nav.iter() {
+        let (i, f) = (s.index(), s.fraction());
+        if i + 1 >= n { continue; }
+        r.check(same3(&s.at_index(), &stations[i]), "station.at_index() is the station of vertex `index` (the one iteration yields)", || format!("{} station (index {}, fraction {:?})", desc(), i, f));
+    }
+    let mut j = 0usize;
+    let mut ordered = pts.len() > 0 && v[0] == pts[0];
+    for k in 0..n {
+        while j < pts.len() && pts[j] != v[k] { j += 1; }
+        if j == pts.len() { ordered = false; break; }
+        j += 1;
+    }
+    r.check(ordered, "the stored vertices are input points in input order, starting with the first (plus the closing vertex of a force-closed curve)", desc);
+    let tie = |d: f64| d != tol && (d - tol).abs() <= 1e-9 * tol;
+    if (0..pts.len() - 1).all(|i| { let d = d3(&pts[i], &pts[i + 1]); d > tol && !tie(d) }) {
+        r.check(n == pts.len() && v[..] == pts[..], "a vertex sequence that survives de-duplication is stored unchanged (plus the closing vertex when force-closed)", desc);
+    }
+    let same_curve = |o: &Curve3| {
+        let (ov, ol) = (o.points(), o.lengths());
+        ov.len() == n && ol.len() == n && (0..n).all(|k| ov[k] == v[k] && sc.len(ol[k], ls[k])) && sc.len(o.length(), total)
+            && [0.0, total * 0.5, total].iter().all(|&l| match (o.at_length(l), c.at_length(l)) { (Some(a), Some(b)) => same3(&a, &b) && sc.len(a.length_along(), b.length_along()), _ => false })
+    };
+    r.check(same_curve(&c.clone()), "a Clone of the curve has the same vertices, cumulative lengths, closedness and stations", desc);
+    match Curve3::from_points(&c.clone_points(), tol) {
+        Ok(o) => r.check(same_curve(&o), "a curve rebuilt from the stored vertices (clone_points -> from_points, same tol) has the same vertices, cumulative lengths, closedness and stations", desc),
+        Err(_) => r.check(false, "a curve rebuilt from the stored vertices (clone_points -> from_points, same tol) has the same vertices, cumulative lengths, closedness and stations", desc),
+    }
 }
 
 pub fn run() -> Report {
-    let mut r = Report::new("2D: all vertex sequences of length 2..=4 over the 3x3 integer grid (x force_closed in {false,true}), plus sequences with near-duplicate points (gap 1e-7 < tol); 3D: 2..=3 vertices over {0,1}^3 plus near-duplicates; probe lengths: 0, L, every vertex length, quarter/half points of every edge, and 6 values outside [0, L]; LONG curves with 31, 32, 33, 64, 100, 128 edges (2D: 8 families uniform / non-uniform, open and force-closed; 3D: 3 families) x scales 1, 0.1, 2^-20, closed square loops with 32..128 edges (seam at a corner / inside a side), 4 families with 257 and 1000 edges, probed at EVERY stored vertex length; curves of ~1300 edges shorter than 1e-6 (total length ~1e-3, tol 1e-9) and unit-size curves with a dense stretch of such edges");
+    let mut r = Report::new("2D: all vertex sequences of length 2..=4 over the 3x3 integer grid and of length 5 over a 3x2 grid (x force_closed in {false,true}), plus sequences with near-duplicate points (gap 1e-7 < tol); 3D: 2..=4 vertices over {0,1}^3 plus near-duplicates; probe lengths: 0, -0.0, L, every vertex length and one ulp either side of it, quarter/half points of every edge, 10 values outside [0, L] (L + 1 ulp, -subnormal, +-tol/2), fractions 0, 1, k/8, 1/3, 2/3, l_i/L and 4 outside [0, 1], at_front / at_back, station navigation (at_index, at_next_index, previous, next), Clone and rebuilt curve; LONG curves with 31, 32, 33, 64, 100, 128 edges (2D: 8 families uniform / non-uniform, open and force-closed; 3D: 3 families) x scales 1, 0.1, 2^-20, closed square loops with 32..128 edges (seam at a corner / inside a side), 4 families with 257 and 1000 edges, 2048 / 4096 / 4097 / 5000 edges (uniform and not), a closed loop with 4400 edges, probed at EVERY stored vertex length; curves of ~1300 edges shorter than 1e-6 (total length ~1e-3, tol 1e-9) and unit-size curves with a dense stretch of such edges; 7 asymmetric shapes x offsets up to 1e8 x scales 1 / 0.1, x tiny scales 1e-6 / 1e-9 / 2^-30; edge-length ratios up to 1e9; tolerances 0, 1e-6, and coarse ones that eat vertices or close the curve within tolerance");
     let grid: Vec<Point2> = (0..9).map(|k| Point2::new((k % 3) as f64, (k / 3) as f64)).collect();
     for len in 2..=4usize {
         let mut idx = vec![0usize; len];
@@ -245,6 +488,7 @@ pub fn run() -> Report {
     check_curve3_tol(&mut r, &dup3, 0.0);
     check_curve3_tol(&mut r, &[g3[0], g3[1], g3[3], g3[7]], 0.25);
     long_curves(&mut r);
+    wave5_families(&mut r);
     r
 }
 
@@ -329,4 +573,108 @@ fn long_curves(r: &mut Report) {
     d3v.extend(chain3(64, &[(3.0, 4.0, 12.0), (4.0, 12.0, 3.0)], h3));
     let e = *d3v.last().unwrap(); d3v.push(Point3::new(e.x, e.y, e.z + 1.0));
     check_curve3_tol(r, &d3v, 1e-9);
+}
+
+/// WAVE 5 families: magnitudes (far / tiny / long / edge ratios), tolerance relations, shape classes; see the header
+fn wave5_families(r: &mut Report) {
+    // (5) shape classes: every 5-vertex sequence over the 3x2 grid (two interior vertices next to each other: hairpins,
+    // collinear runs, self-touching), every 4-vertex sequence over the unit cube
+    let g6: Vec<Point2> = (0..6).map(|k| Point2::new((k % 3) as f64, (k / 3) as f64)).collect();
+    for code in 0..6usize.pow(5) {
+        let pts: Vec<Point2> = (0..5).map(|p| g6[(code / 6usize.pow(p)) % 6]).collect();
+        for fc in [false, true] { check_curve2(r, &pts, fc); }
+    }
+    let g3: Vec<Point3> = (0..8).map(|k| Point3::new((k % 2) as f64, ((k / 2) % 2) as f64, (k / 4) as f64)).collect();
+    for code in 0..8usize.pow(4) {
+        let pts: Vec<Point3> = (0..4).map(|p| g3[(code / 8usize.pow(p)) % 8]).collect();
+        check_curve3(r, &pts);
+    }
+    // asymmetric integer shapes (edge lengths all different; sharp turn; collinear run; exactly closed; closing edge of
+    // its own length when force-closed)
+    let shapes2: Vec<Vec<(f64, f64)>> = vec![
+        vec![(0.0, 0.0), (3.0, 4.0), (3.0, 10.0), (11.0, 4.0)],
+        vec![(0.0, 0.0), (4.0, 0.0), (4.0, 3.0), (0.0, 0.0)],
+        vec![(0.0, 0.0), (8.0, 0.0), (8.0, 6.0), (3.0, 6.0)],
+        vec![(0.0, 0.0), (5.0, 0.0), (2.0, 1.0), (2.0, 7.0)],
+        vec![(0.0, 0.0), (1.0, 0.0), (3.0, 0.0), (7.0, 0.0), (7.0, 1.0)],
+        vec![(0.0, 0.0), (12.0, 5.0)],
+        vec![(2.0, 1.0), (5.0, 5.0), (5.0, -7.0), (0.0, 5.0), (-3.0, 1.0), (2.0, 1.0)],
+    ];
+    let shapes3: Vec<Vec<(f64, f64, f64)>> = vec![
+        vec![(0.0, 0.0, 0.0), (3.0, 4.0, 12.0), (3.0, 4.0, 2.0), (15.0, 1.0, 6.0)],
+        vec![(0.0, 0.0, 0.0), (1.0, 2.0, 2.0), (1.0, 2.0, 9.0), (0.0, 0.0, 0.0)],
+        vec![(0.0, 0.0, 0.0), (2.0, 0.0, 0.0), (5.0, 0.0, 0.0), (5.0, 0.0, 1.0), (1.0, 0.0, 1.0)],
+        vec![(0.0, 0.0, 0.0), (2.0, 3.0, 6.0)],
+        vec![(1.0, 1.0, 1.0), (5.0, 1.0, 4.0), (5.0, 13.0, -1.0), (3.0, 7.0, -4.0), (1.0, 1.0, 1.0), (1.0, 1.0, 8.0)],
+    ];
+    // (1) far from the origin: exact (integer offset + integer shape) and inexact (0.1-scaled shape) coordinates
+    let offs2 = [(0.0, 0.0), (1e3, -1e3), (1e5, 3e5), (1e8, 1e8), (-1e8, 2e7), (1073741824.0, -7.0)];
+    for sh in shapes2.iter() { for &(ox, oy) in offs2.iter() { for &f in [1.0, 0.1].iter() {
+        let pts: Vec<Point2> = sh.iter().map(|q| Point2::new(ox + q.0 * f, oy + q.1 * f)).collect();
+        for fc in [false, true] { check_curve2_tol(r, &pts, fc, 1e-6); }
+    } } }
+    let offs3 = [(0.0, 0.0, 0.0), (1e3, -1e3, 1e3), (1e5, 3e5, -2e5), (1e8, 1e8, -1e8), (-1e8, 2e7, 5.0), (3.0, 1073741824.0, -7.0)];
+    for sh in shapes3.iter() { for &(ox, oy, oz) in offs3.iter() { for &f in [1.0, 0.1].iter() {
+        let pts: Vec<Point3> = sh.iter().map(|q| Point3::new(ox + q.0 * f, oy + q.1 * f, oz + q.2 * f)).collect();
+        check_curve3_tol(r, &pts, 1e-6);
+    } } }
+    // (1) tiny extents, with tolerance 0 and a tolerance scaled with the curve
+    for &f in [1e-6, 1e-9, 2f64.powi(-30), 1e-10, 1e-12].iter() { for &tol in [0.0, 1e-3 * f].iter() {
+        for sh in shapes2.iter() {
+            let pts: Vec<Point2> = sh.iter().map(|q| Point2::new(q.0 * f, q.1 * f)).collect();
+            for fc in [false, true] { check_curve2_tol(r, &pts, fc, tol); }
+        }
+        for sh in shapes3.iter() {
+            let pts: Vec<Point3> = sh.iter().map(|q| Point3::new(q.0 * f, q.1 * f, q.2 * f)).collect();
+            check_curve3_tol(r, &pts, tol);
+        }
+    } }
+    // (1) edge-length ratios: 1000 / 0.001 alternating; one 1e6 edge followed by (and preceded by) edges of length 5e-3 / 1.3e-2
+    check_curve2_tol(r, &chain2(12, &[(1000.0, 0.0), (0.0, 0.001)], 1.0), false, 1e-6);
+    check_curve2_tol(r, &chain2(12, &[(1000.0, 0.0), (0.0, 0.001)], 1.0), true, 1e-6);
+    let mut steps = vec![(1e6, 0.0)]; for k in 0..24 { steps.push(if k % 2 == 0 { (3e-3, 4e-3) } else { (4e-3, -3e-3) }); }
+    check_curve2_tol(r, &chain2(25, &steps, 1.0), false, 1e-6);
+    let mut rev = chain2(25, &steps, 1.0); rev.reverse();
+    check_curve2_tol(r, &rev, false, 1e-6); check_curve2_tol(r, &rev, true, 1e-6);
+    check_curve3_tol(r, &chain3(12, &[(1000.0, 0.0, 0.0), (0.0, 0.001, 0.0), (0.0, 0.0, 1.0)], 1.0), 1e-6);
+    let mut steps = vec![(6e5, 0.0, 8e5)]; for k in 0..24 { steps.push(if k % 2 == 0 { (3e-3, 4e-3, 12e-3) } else { (12e-3, -3e-3, 4e-3) }); }
+    check_curve3_tol(r, &chain3(25, &steps, 1.0), 1e-6);
+    let mut rev = chain3(25, &steps, 1.0); rev.reverse();
+    check_curve3_tol(r, &rev, 1e-6);
+    // short asymmetric chains, 2..=8 vertices, open and force-closed
+    for n in 1..=7usize {
+        check_curve2_tol(r, &chain2(n, &[(3.0, 4.0), (0.0, -1.0), (12.0, 5.0), (-2.0, 0.0)], 1.0), false, 1e-6);
+        check_curve2_tol(r, &chain2(n, &[(3.0, 4.0), (0.0, -1.0), (12.0, 5.0), (-2.0, 0.0)], 0.1), true, 1e-6);
+        check_curve3_tol(r, &chain3(n, &[(3.0, 4.0, 12.0), (0.0, -1.0, 0.0), (1.0, 2.0, 2.0), (0.0, 0.0, -7.0)], 1.0), 1e-6);
+        check_curve3_tol(r, &chain3(n, &[(3.0, 4.0, 12.0), (0.0, -1.0, 0.0), (1.0, 2.0, 2.0), (0.0, 0.0, -7.0)], 0.1), 0.0);
+    }
+    // (1) very long: 2048, 4096, 4097, 5000 edges, uniform (a direct edge guess is right) and non-uniform, 2D and 3D
+    for &n in [2048usize, 4096, 4097, 5000].iter() {
+        check_curve2_tol(r, &chain2(n, &[(1.0, 0.0), (0.0, 1.0)], 1.0), false, 1e-6);
+        check_curve2_tol(r, &chain2(n, &[(3.0, 4.0), (5.0, 0.0), (4.0, -3.0)], 0.1), false, 1e-7);
+        check_curve2_tol(r, &chain2(n, &[(1.0, 0.0), (0.0, 2.0), (3.0, 4.0)], 1.0), true, 1e-6);
+        check_curve3_tol(r, &chain3(n, &[(1.0, 0.0, 0.0), (0.0, 1.0, 0.0), (0.0, 0.0, 1.0)], 1.0), 1e-6);
+        check_curve3_tol(r, &chain3(n, &[(1.0, 2.0, 2.0), (2.0, -1.0, 2.0), (2.0, 2.0, -1.0)], 0.1), 1e-7);
+        check_curve3_tol(r, &chain3(n, &[(1.0, 0.0, 0.0), (0.0, 2.0, 0.0), (3.0, 4.0, 12.0)], 1.0), 1e-6);
+    }
+    check_curve2_tol(r, &loop2(1100, true, 1.0, 0), false, 1e-6);
+    check_curve2_tol(r, &loop2(1100, false, 1.0, 7), true, 1e-6);
+    // (2) tolerance relations
+    // tol = 0 and the input exactly closed / not closed, force-closed or not
+    let tri = vec![Point2::new(0.0, 0.0), Point2::new(4.0, 0.0), Point2::new(4.0, 3.0), Point2::new(0.0, 0.0)];
+    for fc in [false, true] { check_curve2_tol(r, &tri, fc, 0.0); check_curve2_tol(r, &tri[..3], fc, 0.0); }
+    // a tolerance larger than some edges: de-duplication eats vertices (each point is compared with the last one kept)
+    let run2: Vec<Point2> = (0..12).map(|k| Point2::new(0.3 * k as f64, if k >= 8 { 2.0 } else { 0.0 })).collect();
+    for fc in [false, true] { for tol in [0.5, 0.25, 0.3, 1.0] { check_curve2_tol(r, &run2, fc, tol); } }
+    let run3: Vec<Point3> = (0..12).map(|k| Point3::new(0.3 * k as f64, if k >= 8 { 2.0 } else { 0.0 }, if k >= 4 { -3.0 } else { 0.0 })).collect();
+    for tol in [0.5, 0.25, 0.3, 1.0] { check_curve3_tol(r, &run3, tol); }
+    // closed WITHIN tolerance (gap 0.0625 <= tol 0.125, not identical), and the same gap just above a finer tolerance
+    // (open; force-closing adds a short closing edge next to long ones)
+    let near = vec![Point2::new(0.0, 0.0), Point2::new(4.0, 0.0), Point2::new(4.0, 3.0), Point2::new(1.0, 5.0), Point2::new(0.0, 0.0625)];
+    for fc in [false, true] { for tol in [0.125, 0.0625, 0.03125, 1e-6, 0.0] { check_curve2_tol(r, &near, fc, tol); } }
+    let near2 = vec![Point2::new(0.0, 0.0), Point2::new(4.0, 0.0), Point2::new(4.0, 3.0), Point2::new(1.0, 5.0), Point2::new(0.0, 1.5e-6)];
+    for fc in [false, true] { check_curve2_tol(r, &near2, fc, 1e-6); check_curve2_tol(r, &near2, fc, 2e-6); }
+    // 3D has no closed flag: a first/last pair within tolerance stays an ordinary open curve
+    let near3 = vec![Point3::new(0.0, 0.0, 0.0), Point3::new(4.0, 0.0, 0.0), Point3::new(4.0, 3.0, 0.0), Point3::new(1.0, 5.0, 2.0), Point3::new(0.0, 0.0625, 0.0)];
+    for tol in [0.125, 0.0625, 0.03125, 1e-6, 0.0] { check_curve3_tol(r, &near3, tol); }
 }
